@@ -431,6 +431,7 @@ pub fn apply_act(a: &Act, me: Option<&Node>) {
             });
             if let Some((i, id, mut h)) = taken {
                 let before = Rc::as_ptr(&h) as usize;
+                let vid_before = h.vid;
                 let (sc, wc) = (Rc::strong_count(&h), Rc::weak_count(&h));
                 let old_led = with(|w| w.objs[id].val.clone());
                 let res = catch_unwind(AssertUnwindSafe(|| {
@@ -438,9 +439,15 @@ pub fn apply_act(a: &Act, me: Option<&Node>) {
                 }));
                 let after = Rc::as_ptr(&h) as usize;
                 with(|w| {
+                    // which branch did the library take?  a clone has a fresh vid, a stolen value keeps it
+                    let took = if after == before { 0 } else if h.vid != vid_before { 2 } else { 1 };
+                    let want = if sc != 1 { 2 } else if wc != 0 { 1 } else { 0 };
+                    if took != want && res.is_ok() {
+                        w.errs.push(format!("O12:make_mut-took-branch-{}-expected-{}-(strong-{}-weak-{})", took, want, sc, wc));
+                    }
                     let new_id = if after != before {
                         let vid = h.vid;
-                        if sc != 1 {
+                        if took == 2 {
                             // cloned: the clone holds copies of every handle
                             w.rets.push(2);
                             w.dropped_targets.push(id);
